@@ -801,7 +801,8 @@ def main(ctx, replay):
     #      literal-address denial must each be dead-lettered as policy_denied after exactly the sends that preceded the denial, never retried
     try:
         pol = [{"https_only": "off", "redirects": "on", "rebind": "on", "allow": [], "deny": []},
-               {"https_only": "on", "redirects": "on", "rebind": "off", "allow": [], "deny": ["evil.example"]}]
+               {"https_only": "on", "redirects": "on", "rebind": "off", "allow": [], "deny": ["evil.example"]},
+               {"https_only": "off", "redirects": "on", "rebind": "off", "allow": [], "deny": ["10.0.0.0/8"]}]
         dns_pub = {"a.example": [{"err": False, "ips": ["01010101"]}], "evil.example": [{"err": False, "ips": ["08080808"]}]}
         pcases = [
             {"policy": 0, "chain": ["http://a.example/x", "http://169.254.169.254/latest"], "codes": [302], "dns": dns_pub, "mode": "push", "_sends": 1},
@@ -809,6 +810,18 @@ def main(ctx, replay):
             {"policy": 1, "chain": ["https://a.example/x", "https://evil.example/y"], "codes": [308], "dns": dns_pub, "mode": "push", "_sends": 1},
             {"policy": 1, "chain": ["https://a.example/x", "http://a.example/y"], "codes": [301], "dns": dns_pub, "mode": "push", "_sends": 1},
             {"policy": 0, "chain": ["http://127.0.0.1/x"], "codes": [], "dns": {}, "mode": "push", "_sends": 0},
+            # a resolver FAILURE is a network error, not a policy decision: retried while attempt <= retry.max (2 in this harness), and
+            # a target that recovers gets the message
+            {"policy": 0, "chain": ["http://flaky.example/x"], "codes": [], "mode": "push", "_sends": 1, "_want": ("gone", None), "_outcomes": ["retry", "acked"],
+             "dns": {"flaky.example": [{"err": True, "ips": []}, {"err": False, "ips": ["01010101"]}]}},
+            {"policy": 0, "chain": ["http://down.example/x"], "codes": [], "mode": "push", "_sends": 0, "_want": ("dead", "max_retries"),
+             "_outcomes": ["retry", "retry", "dead"], "dns": {"down.example": [{"err": True, "ips": []}]}},
+            {"policy": 2, "chain": ["http://flaky.example/x"], "codes": [], "mode": "push", "_sends": 1, "_want": ("gone", None), "_outcomes": ["retry", "acked"],
+             "dns": {"flaky.example": [{"err": True, "ips": []}, {"err": False, "ips": ["01010101"]}]}, "_note": "CIDR deny rule, rebind off"},
+            # (the scripted transport answers the second request with the end of the chain: 2 sends)
+            {"policy": 0, "chain": ["http://a.example/x", "http://flaky.example/y"], "codes": [302], "mode": "push", "_sends": 2, "_want": ("gone", None),
+             "_outcomes": ["retry", "acked"],
+             "dns": dict(dns_pub, **{"flaky.example": [{"err": True, "ips": []}, {"err": False, "ips": ["01010101"]}]})},
         ]
         rc, out, err = C.harness_run(H, ["egress-run"], {"policies": pol, "cases": [{k: v for k, v in c.items() if not k.startswith("_")} for c in pcases]}, timeout=300)
         if rc == 0:
@@ -816,13 +829,21 @@ def main(ctx, replay):
                 evaluations += 1
                 nontrivial.add(("real-denial", tuple(c["chain"])))
                 probs = []
-                if r.get("state") != "dead" or r.get("dead_reason") != "policy_denied":
-                    probs.append("message is %s/%s, want dead/policy_denied" % (r.get("state"), r.get("dead_reason")))
+                wst, wreason = c.get("_want", ("dead", "policy_denied"))
+                if r.get("state") != wst or (r.get("dead_reason") or None) != wreason:
+                    probs.append("message is %s/%s, want %s/%s" % (r.get("state"), r.get("dead_reason"), wst, wreason))
                 if len(r.get("sent") or []) != c["_sends"]:
-                    probs.append("%d requests were sent, want %d (a denial must not be retried)" % (len(r.get("sent") or []), c["_sends"]))
-                if r.get("attempts") not in (None, 0, 1):
+                    probs.append("%d requests were sent, want %d (a denial must not be retried, a network failure must be)" % (len(r.get("sent") or []), c["_sends"]))
+                if "_outcomes" in c:
+                    if (r.get("outcomes") or []) != c["_outcomes"]:
+                        probs.append("attempt outcomes %s, want %s" % (r.get("outcomes"), c["_outcomes"]))
+                elif r.get("attempts") not in (None, 0, 1):
                     probs.append("%s attempts recorded, want 1" % r.get("attempts"))
-                if probs:
+                if probs and "_want" in c:
+                    C.report(ctx, "real-deliverer-resolver-failure:%s" % ("redirect-hop" if len(c["chain"]) > 1 else "target"),
+                             "a resolver failure through the real HTTPDeliverer and PushDispatcher (a network error: retried while attempt <= retry.max): " + "; ".join(probs),
+                             {"kind": "request", "case": {k: v for k, v in c.items() if not k.startswith("_")}, "policy": pol[c["policy"]], "observed": r})
+                elif probs:
                     C.report(ctx, "real-deliverer-denial:%s" % ("redirect-hop" if len(c["chain"]) > 1 else "target"),
                              "policy denial through the real HTTPDeliverer and PushDispatcher: " + "; ".join(probs),
                              {"kind": "request", "case": {k: v for k, v in c.items() if not k.startswith("_")}, "policy": pol[c["policy"]], "observed": r})
